@@ -88,11 +88,17 @@ func (simpleHTTPSelf *SimpleHTTPDef) GetHTTPClient() *http.Client {
 
 // SetHTTPClient Get the http client and setup interceptors
 func (simpleHTTPSelf *SimpleHTTPDef) SetHTTPClient(client *http.Client) {
+	// Leaving another client: give it back the transport it had, otherwise it keeps routing
+	// through this SimpleHTTP (and no longer through whoever wraps it now)
+	if old := simpleHTTPSelf.client; old != nil && old != client && old.Transport == http.RoundTripper(simpleHTTPSelf) {
+		old.Transport = simpleHTTPSelf.clientTransport
+	}
 	if client.Transport == nil {
 		client.Transport = http.DefaultTransport
 	}
-	// Avoid setting up again next time
-	if client.Transport != simpleHTTPSelf.lastTransport {
+	// Avoid setting up again next time (also when this SimpleHTTP is already somewhere in the
+	// client's chain of wrapped transports: wrapping again would make it its own transport)
+	if client.Transport != simpleHTTPSelf.lastTransport && !simpleHTTPSelf.isWrapping(client.Transport) {
 		// Keep old one
 		simpleHTTPSelf.clientTransport = client.Transport
 
@@ -103,6 +109,21 @@ func (simpleHTTPSelf *SimpleHTTPDef) SetHTTPClient(client *http.Client) {
 	}
 
 	simpleHTTPSelf.client = client
+}
+
+// isWrapping Check is this SimpleHTTP already part of the given chain of wrapped transports
+func (simpleHTTPSelf *SimpleHTTPDef) isWrapping(transport http.RoundTripper) bool {
+	for i := 0; i < 64; i++ {
+		wrapper, ok := transport.(*SimpleHTTPDef)
+		if !ok || wrapper == nil {
+			return false
+		}
+		if wrapper == simpleHTTPSelf {
+			return true
+		}
+		transport = wrapper.clientTransport
+	}
+	return false
 }
 
 // RoundTrip Do RoundTrip things(interceptors)
